@@ -323,6 +323,15 @@ def main():
             out['merge_polys'] = [decode_poly(dat[indptr[i]:indptr[i + 1]])[0]
                                   for i in range(len(indptr) - 1)]
             out['merge_elem_conv'] = [int(e) for e in ec]
+            # one pass of remove_edges on the merged cells (correspondence with the
+            # driver model HarnessDriver.driver_pass)
+            if job.get('driver_pass') and job['cos_thresh'] > 0:
+                ec2 = ec.copy()
+                with contextlib.redirect_stdout(buf):
+                    ip2, d2 = mcmod.remove_edges((indptr.copy(), dat.copy()),
+                                                 np.asarray(mc.node_pos, np.float64).copy(), ec2,
+                                                 THRESH=job['cos_thresh'])
+                out['drv_polys'] = [decode_poly(d2[ip2[i]:ip2[i + 1]])[0] for i in range(len(ip2) - 1)]
             # edge removals on real merged cells (geometry = the input node table):
             # correspondence with ModelEdge.remove_one_edge and instances of
             # C20_remove_one_edge_volume
